@@ -925,10 +925,10 @@ func cacheViewFromFile(
 	if !isCached || (forUpdate && !view.FileInfo.ForUpdate) {
 		var fileInfo *FileInfo = nil
 		if isCached {
-			fileInfo = view.FileInfo
-			if err = scope.Tx.CachedViews.Dispose(scope.Tx.FileContainer, fileInfo.IdentifiedPath()); err != nil {
-				return
-			}
+			// The cached copy stays in place, untouched, until the file has been locked and read again:
+			// the reload works on a copy of its FileInfo and replaces the cache entry only on success.
+			fi := *view.FileInfo
+			fileInfo = &fi
 		} else {
 			fileInfo, err = NewFileInfo(fileIdentifier, scope.Tx.Flags.Repository, options, scope.Tx.Flags.ImportOptions.Format)
 			if err != nil {
